@@ -371,7 +371,8 @@ def c15(tier, seed, case=None):
             'ALL words of length <= %d over {iterate 0/1/2/all items, read_nth_shape(i) i=0..3, seek(k) k=0..3, shape_count} on a '
             'ShapeReader with index, <= %d over {iterate 0/1/2/all} without index, <= %d over {iterate.., seek(k), shape_count} on the '
             'complete Reader (rows carry their index), each on a file of 3 records of pairwise different sizes and on one of equal '
-            'sizes; every call is judged by a reference model whose state is the set of start positions the property allows for the '
+            'sizes, each once through the generic API and once through the typed variants (iter_shapes_as, read_nth_shape_as, '
+            'iter_shapes_and_records_as; one letter shorter in the thorough tier); every call is judged by a reference model whose state is the set of start positions the property allows for the '
             'next iteration. distinct = (reader kind, file, word); all non-trivial' % n, exhaustive=True)
     for prof in _profiles(tier):
         v.add_run(run_engine('C15', 'c15', prof, tier, seed, case=case))
